@@ -38,9 +38,10 @@ SLOTS = {
     "K1": dict(x="int"), "K2": dict(x="int"),
     "W1": dict(x="int", c="ocfg"), "W2": dict(x="int", c="ocfg"),
     "S2": dict(a="str!", b="str"),
+    "EH": dict(lv="Level", md="oMode", x="int"),
 }
 CLASS_WEIGHTS = [("Leaf", 6), ("Inner", 7), ("Bag", 5), ("Req", 1), ("TaskA", 2), ("TaskOut", 1), ("Pre", 1),
-                 ("Init", 1), ("NewL", 1), ("OldL", 1), ("NewT", 1), ("OldT", 1), ("V1", 1), ("V2", 1), ("K1", 1), ("W1", 1), ("S2", 1)]
+                 ("Init", 1), ("NewL", 1), ("OldL", 1), ("NewT", 1), ("OldT", 1), ("V1", 1), ("V2", 1), ("K1", 1), ("W1", 1), ("S2", 1), ("EH", 2)]
 # slots whose declaration is ignored (Meta/Option) -- used by the neutral-edit generator
 IGNORED = {"Leaf": {"m", "op", "mp"}, "Inner": {"mc", "oc"}, "Bag": {"mlc", "lp"}, "Init": {"w"}, "V2": {"z"}}
 DEFAULTS = {("Leaf", "f"): 1.5, ("Leaf", "s"): "a", ("Leaf", "b"): False, ("Leaf", "e"): "RED", ("Inner", "x"): 0,
@@ -89,6 +90,10 @@ class Gen:
             return {"t": "enum", "e": "Color", "m": r.choice(COLORS)}
         if kind == "Shape":
             return {"t": "enum", "e": "Shape", "m": r.choice(SHAPES)}
+        if kind == "Level":
+            return {"t": "enum", "e": "Level", "m": r.choice(["LOW", "HIGH"])}
+        if kind == "Mode":
+            return {"t": "enum", "e": "Mode", "m": r.choice(["FAST", "SLOW"])}
         if kind == "path":
             return {"t": "path", "v": r.choice(PATHS)}
         raise ValueError(kind)
